@@ -242,3 +242,60 @@ Proof.
   { induction s as [|u s IH]; intros c H; [exact H|]. rewrite exec_cons. apply IH, step_cur_count, H. }
   apply G. reflexivity.
 Qed.
+
+(** ** the label stream of a run is a sequentially consistent history of the three atomics: replayed from the
+    oldest label on against a memory that starts at (0, 0, false), every load returns the value of the latest
+    write to its site, every fetch_add reports the value it found and writes the wrapped sum, and the memory at
+    the end is the model's shared state.  [replay] answers [None] as soon as one label disagrees. *)
+Definition mem := (N * N * bool)%type.
+Definition mem_apply (l : label) (m : mem) : option mem :=
+  let '(mc, my, mf) := m in
+  match l with
+  | LAtom _ SC ALoad _ ret _ => if ret =? mc then Some m else None
+  | LAtom _ SC AStore v _ _ => Some (v, my, mf)
+  | LAtom _ SC AAdd n old _ => if old =? mc then Some (wadd old n, my, mf) else None
+  | LAtom _ SY ALoad _ ret _ => if ret =? my then Some m else None
+  | LAtom _ SY AStore v _ _ => Some (mc, v, mf)
+  | LAtom _ SY AAdd n old _ => if old =? my then Some (mc, wadd old n, mf) else None
+  | LAtom _ SF ALoad _ ret _ => if ret =? bN mf then Some m else None
+  | LAtom _ SF AStore v _ _ => Some (mc, my, negb (v =? 0))
+  | LAtom _ SF AAdd _ _ _ => None
+  | _ => Some m
+  end.
+Fixpoint replay (ls : list label) : option mem :=
+  match ls with
+  | [] => Some (0, 0, false)
+  | l :: tl => match replay tl with Some m => mem_apply l m | None => None end
+  end.
+Definition mem_of (sh : shared) : mem := (s_c sh, s_y sh, s_f sh).
+
+Lemma step_replay e c u :
+  replay (c_labels c) = Some (mem_of (c_sh c)) ->
+  replay (c_labels (step e c u)) = Some (mem_of (c_sh (step e c u))).
+Proof.
+  intros H. unfold step.
+  assert (HH : id (replay (c_labels c) = Some (mem_of (c_sh c)))) by exact H. clear H.
+  repeat first
+    [ solve [exact HH]
+    | solve [ unfold id in HH; cbn [commit c_sh c_labels replay]; rewrite HH;
+              cbn [mem_apply mem_of s_c s_y s_f with_c with_y with_f with_src];
+              repeat match goal with E : _ = _ |- _ => try rewrite E in *; clear E end;
+              rewrite ?N.eqb_refl; reflexivity ]
+    | progress unfold finish, call
+    | match goal with |- context [match ?x with _ => _ end] => destruct x eqn:? end ].
+Qed.
+
+Theorem label_stream_is_sequentially_consistent : forall e progs sched,
+  replay (c_labels (exec e (init progs) sched)) = Some (mem_of (c_sh (exec e (init progs) sched))).
+Proof.
+  intros e progs sched.
+  assert (G : forall s c, replay (c_labels c) = Some (mem_of (c_sh c)) ->
+                          replay (c_labels (exec e c s)) = Some (mem_of (c_sh (exec e c s)))).
+  { induction s as [|u s IH]; intros c H; [exact H|]. rewrite exec_cons. apply IH, step_replay, H. }
+  apply G. reflexivity.
+Qed.
+
+(** [replay] is not a constant: a stream whose load disagrees with the latest write is rejected *)
+Example replay_rejects :
+  replay [LAtom 0%nat SC ALoad 0 5 ORelaxed; LAtom 0%nat SC AAdd 1 0 ORelaxed] = None.
+Proof. vm_compute. reflexivity. Qed.
